@@ -344,10 +344,133 @@ def check_combine_pure(vtree: ast.Module) -> None:
             raise TranslateError(f'Output.combine calls `{n.func.attr}` on its parameter (line {n.lineno})')
 
 
+def from_entity_census(itree: ast.Module, vtree: ast.Module, classes: dict[str, ClassInfo]) -> list[tuple[str, str, str]]:
+    """Round 5: `Instance.from_entity(ent)` — what of the func_instance ENTITY reaches the Instance it builds.  Per
+    constructor parameter / attribute stored afterwards: (name, origin, source text) with origin
+      scalar    a string / number / enum / tuple read from the entity (ent[...], getattr(ent, NAME, const))
+      fresh     built here from scalars (Vec.from_str, Matrix.from_angstr)
+      copy      `ent.fixup.copy_values()` when the copy census of copy_values is deep; `[o.copy() for o in ent.outputs]`
+      template  the entity's own mutable object or a container of its own objects (`ent.outputs`, `ent.fixup`, ...)
+    Fail-closed for anything else."""
+    from translate.c09_copy import CopyAnalysis
+    cls = _find_class(itree, 'Instance')
+    fns = [n for n in cls.body if isinstance(n, ast.FunctionDef) and n.name == 'from_entity']
+    inits = [n for n in cls.body if isinstance(n, ast.FunctionDef) and n.name == '__init__']
+    if len(fns) != 1 or len(inits) != 1:
+        raise TranslateError('Instance.from_entity / __init__: expected one definition each')
+    fn, init = fns[0], inits[0]
+    if [a.arg for a in fn.args.args] != ['cls', 'ent'] or fn.args.vararg or fn.args.kwarg or fn.args.kwonlyargs:
+        raise TranslateError('Instance.from_entity: unexpected signature')
+    an = CopyAnalysis(vtree, classes)
+    an.analyse_copy_values()
+    binds: dict[str, list[ast.expr]] = {}
+    ctor: list[tuple[str, ast.Call]] = []
+    post: list[tuple[str, ast.expr]] = []
+
+    def scan(body: list[ast.stmt]) -> None:
+        for st in body:
+            if isinstance(st, ast.Expr):
+                if isinstance(st.value, ast.Constant) or (isinstance(st.value, ast.Call) and ast.unparse(st.value.func).startswith('LOGGER.')):
+                    continue
+                raise TranslateError(f'Instance.from_entity: unrecognised statement `{ast.unparse(st)[:60]}`')
+            if isinstance(st, ast.Assign) and len(st.targets) == 1:
+                t = st.targets[0]
+                if isinstance(t, ast.Name):
+                    if isinstance(st.value, ast.Call) and isinstance(st.value.func, ast.Name) and st.value.func.id in ('cls', 'Instance'):
+                        ctor.append((t.id, st.value))
+                    else:
+                        binds.setdefault(t.id, []).append(st.value)
+                    continue
+                if isinstance(t, ast.Attribute) and isinstance(t.value, ast.Name) and ctor and t.value.id == ctor[0][0]:
+                    post.append((t.attr, st.value))
+                    continue
+                raise TranslateError(f'Instance.from_entity: unrecognised store `{ast.unparse(st)[:60]}`')
+            if isinstance(st, ast.Try):
+                scan(st.body)
+                for h in st.handlers:
+                    scan(h.body)
+                scan(st.orelse)
+                scan(st.finalbody)
+                continue
+            if isinstance(st, ast.If):
+                scan(st.body)
+                scan(st.orelse)
+                continue
+            if isinstance(st, ast.Return) and isinstance(st.value, ast.Name) and ctor and st.value.id == ctor[0][0]:
+                continue
+            raise TranslateError(f'Instance.from_entity: unrecognised statement `{ast.unparse(st)[:60]}`')
+    scan(fn.body)
+    if len(ctor) != 1:
+        raise TranslateError(f'Instance.from_entity: expected one constructor call, found {len(ctor)}')
+    order = ['scalar', 'fresh', 'copy', 'template']
+
+    def worst(xs: list[str]) -> str:
+        return max(xs, key=order.index) if xs else 'scalar'
+
+    def origin(e: ast.expr, depth: int = 0) -> str:
+        if depth > 6:
+            raise TranslateError('Instance.from_entity: local chain too deep')
+        if isinstance(e, ast.Constant):
+            return 'scalar'
+        if isinstance(e, ast.Name):
+            if e.id in binds:
+                return worst([origin(b, depth + 1) for b in binds[e.id]])
+            if e.id == 'ent':
+                return 'template'
+            raise TranslateError(f'Instance.from_entity: unknown name `{e.id}`')
+        if isinstance(e, ast.Attribute) and isinstance(e.value, ast.Name) and e.value.id in ('FixupStyle', 'ValueTypes'):
+            return 'scalar'                                   # enum member
+        if isinstance(e, ast.Subscript) and isinstance(e.value, ast.Name) and e.value.id == 'ent':
+            return 'scalar'                                   # ent['key'] / ent['key', default]: a string
+        if isinstance(e, ast.Call):
+            f = ast.unparse(e.func)
+            if f == 'getattr' and len(e.args) == 3 and isinstance(e.args[0], ast.Name) and e.args[0].id == 'ent' \
+                    and isinstance(e.args[2], (ast.Constant, ast.Tuple)) and not (isinstance(e.args[2], ast.Tuple) and e.args[2].elts):
+                return 'scalar'                               # bookkeeping attributes set by collapse_all: an int / a tuple of str
+            if f in ('Vec.from_str', 'Matrix.from_angstr', 'Angle.from_str', 'FixupStyle', 'int', 'str', 'float'):
+                inner = worst([origin(a, depth + 1) for a in e.args])
+                if inner == 'scalar':
+                    return 'fresh' if '.' in f else 'scalar'
+                raise TranslateError(f'Instance.from_entity: `{ast.unparse(e)[:60]}` is built from a non-scalar')
+            if f == 'ent.fixup.copy_values' and not e.args and not e.keywords:
+                return 'copy' if an.copy_values_how == 'deep' else 'template'
+            if f in ('list', 'tuple', 'set') and len(e.args) == 1:
+                return origin(e.args[0], depth + 1)           # a new container of the same elements
+        if isinstance(e, ast.ListComp) and len(e.generators) == 1 and ast.unparse(e.generators[0].iter) == 'ent.outputs' \
+                and isinstance(e.generators[0].target, ast.Name) and not e.generators[0].ifs \
+                and ast.unparse(e.elt) == f'{e.generators[0].target.id}.copy()':
+            return 'copy'
+        if any(isinstance(n, ast.Name) and n.id == 'ent' for n in ast.walk(e)):
+            if isinstance(e, ast.Attribute) or (isinstance(e, ast.Call) and isinstance(e.func, ast.Attribute)):
+                return 'template'                             # ent.outputs, ent.fixup, ent.fixup._fixup.values(), ent.solids ...
+        raise TranslateError(f'Instance.from_entity: unrecognised argument `{ast.unparse(e)[:60]}`')
+
+    a = init.args
+    if a.vararg or a.kwarg or a.posonlyargs:
+        raise TranslateError('Instance.__init__: *args / **kwargs')
+    params = [x.arg for x in a.args[1:]]
+    call = ctor[0][1]
+    bound: dict[str, ast.expr] = {}
+    for p_, x in zip(params, call.args):
+        if isinstance(x, ast.Starred):
+            raise TranslateError('Instance.from_entity: *args in the constructor call')
+        bound[p_] = x
+    if len(call.args) > len(params):
+        raise TranslateError('Instance.from_entity: too many positional arguments')
+    for kw in call.keywords:
+        if kw.arg is None or kw.arg in bound or kw.arg not in params + [x.arg for x in a.kwonlyargs]:
+            raise TranslateError(f'Instance.from_entity: bad keyword {kw.arg}')
+        bound[kw.arg] = kw.value
+    rows = [(p_, origin(x), ast.unparse(x)) for p_, x in bound.items()]
+    rows += [(f'.{f}', origin(x), ast.unparse(x)) for f, x in post]
+    return rows
+
+
+
 def translate() -> tuple[str, dict]:
     itree = ast.parse(src_text('instancing.py'))
     vtree = ast.parse(src_text('vmf.py'))
-    classes = {n: ClassInfo(_find_class(vtree, n)) for n in VMF_CLASSES}
+    classes = {n: ClassInfo(_find_class(vtree, n), module=vtree) for n in VMF_CLASSES}
     fns = [n for n in itree.body if isinstance(n, ast.FunctionDef) and n.name == 'collapse_one'
            and not any(ast.unparse(d).startswith(('overload', 'deprecated')) for d in n.decorator_list)]
     if len(fns) != 1:
@@ -370,8 +493,11 @@ def translate() -> tuple[str, dict]:
     lines.append(';\n'.join(f'  ({q(f"{ln}: {txt}")}, {tag[o]})' for ln, k, o, txt in c.sites if k == 'ENTER'))
     lines += ['].', 'Definition collapse_copies : list (string * string) := [']
     lines.append(';\n'.join(f'  ({q(f"{ln}: {txt}")}, {q(cl)})' for ln, k, cl, txt in copies))
+    lines += ['].', 'Definition instance_from_entity : list (string * corigin) := [']
+    fe = from_entity_census(itree, vtree, classes)
+    lines.append(';\n'.join(f'  ({q(nm)}, {tag[o]})' for nm, o, _t in fe))
     lines += ['].', '']
-    side = {'writes': [[ln, o, t] for ln, k, o, t in c.sites if k == 'WRITE'],
+    side = {'from_entity': [list(r) for r in fe],'writes': [[ln, o, t] for ln, k, o, t in c.sites if k == 'WRITE'],
             'enters': [[ln, o, t] for ln, k, o, t in c.sites if k == 'ENTER'],
             'copies': [[ln, cl, t] for ln, k, cl, t in copies],
             'template_reads': sorted({(cl, a, k) for _ln, cl, a, k in c.reads}),
